@@ -108,9 +108,134 @@ func (x *Exec) buildQueryR(o *Obligation, depth int, rounds int) *Query {
 	return x.buildQueryM(o, depth, rounds, false)
 }
 
+// arraySyms collects the array-sorted free symbols of t (heap versions, fresh array variables, array-valued functions).
+func arraySyms(t *Term, out map[string]bool) {
+	if t == nil {
+		return
+	}
+	isArr := t.Sort == SArrI || t.Sort == SArrB || t.Sort == SArr2 || t.Sort == SAr2B
+	if isArr && (t.Op == "var" || (t.Op == "app" && len(t.Args) == 0)) {
+		out[t.Name] = true
+	}
+	if isArr && t.Op == "app" && t.Name != "store" && t.Name != "select" && t.Name != "ite" && len(t.Args) > 0 {
+		out[t.String()] = true
+	}
+	for _, a := range t.Args {
+		arraySyms(a, out)
+	}
+}
+
+// sliceAssumes drops quantified assumptions that talk about arrays unrelated (transitively, through shared
+// array symbols) to the goal.  Dropping assumptions is sound; it keeps the instantiation focused.
+// splitConj flattens conjunctions and distributes a universal quantifier over a conjunction in its body
+// (forall k. G => (A and B)  ==  (forall k. G => A) and (forall k. G => B)), so that facts about
+// different arrays become separate assumptions.
+func splitConj(t *Term, out *[]*Term) {
+	if t.Op == "app" && t.Name == "and" {
+		for _, a := range t.Args {
+			splitConj(a, out)
+		}
+		return
+	}
+	if t.Op == "forall" && len(t.Args) == 1 {
+		body := t.Args[0]
+		var guard, cons *Term
+		if body.Op == "app" && body.Name == "=>" && len(body.Args) == 2 {
+			guard, cons = body.Args[0], body.Args[1]
+		} else {
+			cons = body
+		}
+		if cons.Op == "app" && cons.Name == "and" && len(cons.Args) > 1 {
+			for _, c := range cons.Args {
+				nb := c
+				if guard != nil {
+					nb = Implies(guard, c)
+				}
+				nt := &Term{Op: "forall", Sort: SBool, Bound: t.Bound, Args: []*Term{nb}, Pats: nil}
+				splitConj(nt, out)
+			}
+			return
+		}
+	}
+	*out = append(*out, t)
+}
+
+func sliceAssumes(assumes []*Term, goal *Term) []*Term {
+	if goal == nil || len(assumes) < 40 {
+		return assumes
+	}
+	var flat []*Term
+	for _, a := range assumes {
+		splitConj(a, &flat)
+	}
+	assumes = flat
+	rel := map[string]bool{}
+	arraySyms(goal, rel)
+	if len(rel) == 0 {
+		return assumes
+	}
+	type info struct {
+		syms   map[string]bool
+		quant  bool
+		keep   bool
+	}
+	infos := make([]*info, len(assumes))
+	for i, a := range assumes {
+		in := &info{syms: map[string]bool{}, quant: hasQuantifier(a)}
+		arraySyms(a, in.syms)
+		in.keep = !in.quant || len(in.syms) == 0
+		infos[i] = in
+	}
+	for changed := true; changed; {
+		changed = false
+		for _, in := range infos {
+			if !in.quant {
+				continue
+			}
+			touches := false
+			for s := range in.syms {
+				if rel[s] {
+					touches = true
+					break
+				}
+			}
+			if !touches {
+				continue
+			}
+			if !in.keep {
+				in.keep = true
+				changed = true
+			}
+			for s := range in.syms {
+				if !rel[s] {
+					rel[s] = true
+					changed = true
+				}
+			}
+		}
+	}
+	var out []*Term
+	for i, a := range assumes {
+		if infos[i].keep {
+			out = append(out, a)
+		}
+	}
+	return out
+}
+
+var sliceByDefault = false
+
 func (x *Exec) buildQueryM(o *Obligation, depth int, rounds int, qfMode bool) *Query {
-	extra := x.instantiate(o.Assumes, o.Goal, depth)
-	assumes := append([]*Term(nil), o.Assumes...)
+	return x.buildQueryS(o, depth, rounds, qfMode, sliceByDefault)
+}
+
+func (x *Exec) buildQueryS(o *Obligation, depth int, rounds int, qfMode bool, slice bool) *Query {
+	base := o.Assumes
+	if slice {
+		base = sliceAssumes(o.Assumes, o.Goal)
+	}
+	extra := x.instantiate(base, o.Goal, depth)
+	assumes := append([]*Term(nil), base...)
 	assumes = append(assumes, extra...)
 	used := mentionsName(assumes, o.Goal, "strconst.")
 	if len(used) > 0 {
